@@ -100,7 +100,9 @@ func (s *Store) Append(ctx context.Context, event *eventbus.Event) (eventbus.Off
 		Data: event.Data,
 	}
 	if !event.Timestamp.IsZero() {
-		writeEvent.Timestamp = event.Timestamp.Format(time.RFC3339Nano)
+		// RFC 3339 writes zone offsets in whole minutes: format the instant in UTC so that
+		// a zone whose offset has seconds (local mean time) does not shift it
+		writeEvent.Timestamp = event.Timestamp.UTC().Format(time.RFC3339Nano)
 	}
 
 	if err := writer.SendJSON(writeEvent, nil); err != nil {
